@@ -22,23 +22,23 @@ CHECKS = {
          "GetDumpStructStr is run on random values of random reflect.StructOf types (empty structs, unexported first/all fields, nested pointers, slices, arrays, string- and integer-keyed maps, nil at every level); the output must be valid JSON and decode to the same document as the standard encoding after the documented deviations, numbers compared exactly.",
          "encoding/json is the trusted reference; strings without characters needing escapes; float32 restricted to multiples of 1/8; embedded fields, []byte and multi-level pointers excluded.", "§3 C20"),
  "C06": ("before/after file monitor: independent tag merger (go/parser + hand-written scanner) + byte comparison outside tag literals",
-         "Generated Go files of seven shape classes are processed by the library entry points and by the freshly built CLI (-f, -d, -p); for every annotated field the output's ordered key/value list must equal the independently computed merge (existing keys in place, overridden values, new keys appended, no duplicates), every byte outside the annotated fields' tag literals must be unchanged and the output must parse.",
+         "Generated Go files of seven shape classes, plus real-world sources found on the machine (protoc-gen-go output in the module cache, standard-library files) annotated by the harness or left as they are, are processed by the library entry points and by the freshly built CLI (-f, -d, -p); for every annotated field the output's ordered key/value list must equal the independently computed merge (existing keys in place, overridden values, new keys appended, no duplicates), every byte outside the annotated fields' tag literals must be unchanged and the output must parse.",
          "go/parser is trusted; domain limited as the property states (backquoted conventional tags, trailing comments of the field — several are merged in order —, top-level declarations; grouped declarations may be processed or not; a value containing a backquote cannot be injected and must leave the field untouched).", "§3 C06"),
  "C07": ("byte-equality monitor over repeated injector runs (histories mixing library, -f, -d, -p)",
-         "The C06 corpus plus annotation-free files is processed 2-5 times with randomly mixed entry points; the bytes after run n+1 must equal those after run n, and annotation-free files must never change. The check is vacuous-proofed by requiring that >=90% of annotated files were actually modified by run 1.",
+         "The C06 corpus (generated classes and real-world sources) plus annotation-free files, comments repeating a key and the parseable-but-awkward shapes of C19 is processed 2-5 times with randomly mixed entry points; the bytes after run n+1 must equal those after run n, and annotation-free files must never change. The check is vacuous-proofed by requiring that >=90% of annotated files were actually modified by run 1.",
          "Idempotence is judged independently of correctness; SHA/bytes comparison only.", "§3 C07"),
  "C19": ("fault-injected directory workloads against the built CLI; snapshot comparison + C06 oracle per processable file",
          "Directories mixing processable files with syntactically broken, truncated, empty and binary .go files, parseable-but-awkward files (no tag literal, malformed @tag, grouped/local/generic types, interpreted/empty literals), non-Go files, sub-directories and a directory named x.go are processed with -f/-d/-p/-p '*'; exit status and panic text are observed, unprocessable files must be byte-identical and every parseable file must equal the documented merge (so a crash or early stop that leaves later files un-injected is detected). The thorough tier adds a coverage-guided fuzz target feeding arbitrary bytes named *.go to the injector.",
          "Faults are file-content faults (no I/O error injection); files in sub-directories are only required not to be corrupted.", "§3 C19"),
  "C09": ("online reference-model monitor, bounded-exhaustive operation sequences + long random sequences",
-         "The real LRUCache is stepped in lock-step with a 30-line reference LRU; return value, Len, removal-callback log and full recency order (Dump) are compared after every single operation. All sequences up to the length bound over a 10-letter alphabet on capacities 0..4 are enumerated completely; long random sequences cross the map-rebuild threshold thousands of times.",
+         "The real LRUCache is stepped in lock-step with a 30-line reference LRU; return value, Len, removal-callback log and full recency order (Dump) are compared after every single operation. All sequences up to the length bound over a 10-letter alphabet on capacities 0..4 are enumerated completely; long random sequences cross the map-rebuild threshold thousands of times; values of every dynamic kind (nil interface, typed nil, uncomparable) go through Delete / eviction / overwrite; and a fault is injected at the hook: a removal callback that panics on every k-th invocation while the caller recovers, after which the cache must still follow the model.",
          "Trusts the reference model's reading of the statement (Store on a live key replaces and touches, no callback on replacement); sequences longer than the bound are sampled, not enumerated.", "§3 C09"),
  "C02": ("reference-model monitor: independent validator + clause parser, sequence comparison of (path, rule-instance marker, echo) on run-time synthesised struct types",
          "Random struct types built with reflect.StructOf (nesting through values, pointers, slices, arrays, maps; unexported fields) carry 0-5 rules per field with unique custom messages, repeated rules, empty items, unknown names and either/botheq groups; values are tuned so each rule fails about half the time. The parsed clause sequence of Struct / ValidateStruct / StructForFn / top-level slice, array and map inputs / Var / Map / Url must equal the independent reference validator's: same clauses, none missing, none duplicated, declaration-then-rule order (Go map entries and group clauses as multisets), echo of scalars, no trailing separator, nil iff no clause.",
          "The reference validator (harness/internal/ref) is trusted as the reading of the documentation; cases with a rule whose verdict the documentation leaves open are skipped and counted; messages never contain the separator or a label.", "§3 C02"),
  "C03": ("reference-model monitor over a completely enumerated cross product (type x emptiness state x rule form x entry point)",
-         "Every combination of 33 field types, their emptiness states (zero, nil, empty non-nil, populated), every rule applicable to the kind written as R / required,R / R,required / required, and seven entry points (struct tag, struct RM, Var, map[string]T, map[string]interface{}, []map, Url incl. absent / empty / duplicated keys) is executed; required must be reported iff the value is empty and no other rule may produce a clause on an empty value.",
-         "time.Time fields excluded (C04 says they are never validated); map[string]interface{} carriers have two open known findings.", "§3 C03"),
+         "Every combination of 33 field types, their emptiness states (zero, nil, empty non-nil, populated), every rule applicable to the kind written as R / required,R / R,required / required, and eight entry points (struct tag, struct RM, a struct field between time.Time / string / integer neighbours, Var, map[string]T, map[string]interface{}, []map, Url incl. absent / empty / duplicated keys) is executed; required must be reported iff the value is empty and no other rule may produce a clause on an empty value.",
+         "map[string]interface{} carriers have two open known findings (KNOWN_FINDINGS.txt).", "§3 C03"),
  "C05": ("reference-model monitor: hand-written three-valued recognisers (no regexp, no time.Parse) vs the library on members, all single-character edits of members and random strings",
          "For each format/content rule the library's verdict through Var (1/8 also through Struct) is compared with an independent recogniser on valid members from a per-rule constructor, every single-character delete / insert / substitute / transpose of a member, random strings over a hostile alphabet, every datetime separator triple from a 7-symbol set, quoted options and patterns, numeric and slice inputs. Where the documentation does not fix membership the recogniser answers 'unspecified' and the case is counted, not judged.",
          "Trusts the recognisers' reading of the README; the regexp engine is trusted for re (only pattern extraction is under test); file/dir are judged against a tree the harness created.", "§3 C05"),
@@ -61,7 +61,7 @@ CHECKS = {
          "One scalar value under 1-4 rules supported by all inputs (unique message per rule instance) is presented as struct field (tag and RM), Var, map[string]T, map[string]interface{}, []map and, for strings, Url in raw, percent-encoded (among decoys, first/middle/last) and whole-URL-encoded form, with values containing & = + % ? # space and CJK. The set of reported rule instances must be identical for every carrier; any carrier-specific extra clause is a violation too.",
          "No model decides the verdict (the reference validator only names the odd one out); map[string]interface{} carriers have an open known finding.", "§3 C18"),
  "C11": ("Go race detector + solo-vs-concurrent result comparison under goroutine stampedes with yield injection through the public cache interface",
-         "A -race binary releases 2-32 goroutines together on a cold type cache; each executes hundreds to thousands of heterogeneous calls (every public entry point, three tag names, overrides, per-call functions, groups, one-off types) on independent inputs of shared and private struct types, under the default cache and under NewLRU(2) wrapped by a cache that yields between a Load miss and the following Store. Every call is then executed again alone and the two results must be equal; every race-detector report with a library frame, panic, fatal error or hang in the library's lock is a violation. Evidence reports calls in flight, double misses, cross-goroutine pool hand-overs and overlapping entry-point pairs actually observed.",
+         "A -race binary releases 2-32 goroutines together on a cold type cache; each executes hundreds to thousands of heterogeneous calls (every public entry point, three tag names, overrides, per-call functions, groups, one-off types) on independent inputs of shared and private struct types, under the default cache and under NewLRU(2) wrapped by a cache that yields between a Load miss and the following Store. In addition 8 (thorough: 40) cold-start processes make their very first library calls from 8-32 goroutines at once (lazily created package state is set up under contention). Every call is then executed again alone and the two results must be equal; every race-detector report with a library frame, panic, fatal error or hang in the library's lock is a violation. Evidence reports calls in flight, double misses, cross-goroutine pool hand-overs and overlapping entry-point pairs actually observed.",
          "Only executed interleavings are judged; schedule-dependent minimums are met by repeating the run (by count, never by clock); results compared as sorted clause lists.", "§3 C11"),
  "C12": ("relational history monitor (orders, permutations, adversarial predecessors, fresh-process samples) + twin-input mutation check + retained-string monitor under checkptr",
          "A seeded history of heterogeneous calls is executed in order, reversed, in seeded permutations and with an adversarial predecessor (other tag, other override, per-call functions of the same names, entry-guard refusals) before every call; per call all results must be equal, and equal to the call executed as the first call of a fresh process for a sample. Inputs are compared with twins built from the same seed after the calls (input and rule maps unmodified). Every returned error text, split token and parsed triple is retained next to a byte copy and re-compared after later calls and garbage collections.",
